@@ -151,6 +151,9 @@ def render(rd, o, pres, chunks):
     if tk.get("use_origin"):
         kw["origin"] = o
         kw["relativize"] = tk["relativize"]
+    if chunks is not None and chunks[0] == "legacy-keywords":
+        # the keyword spelling that predates RdataStyle: to_text(chunksize=, separator=)
+        return rd.to_text(**kw, chunksize=chunks[1], separator=chunks[2])
     if chunks is not None:
         style = dns.rdata.RdataStyle(origin=kw.get("origin"), relativize=kw.get("relativize", False) if "origin" in kw else False,
                                      base64_chunk_size=chunks[0], hex_chunk_size=chunks[1], txt_is_utf8=len(chunks) > 2)
@@ -246,7 +249,8 @@ def check_value(ctx, val, origin):
     if t == "OPT":
         press = []  # OPT is a pseudo-RR without a master-file form (no from_text); only the RFC 3597 form applies
     for pres in press:
-        chunks = rng.choice((None, None, (0, 0), (1, 1), (4, 4), (32, 128), (64, 64), (128, 32), (32, 128, "utf8"), (32, 128, "utf8")))
+        chunks = rng.choice((None, None, (0, 0), (1, 1), (4, 4), (32, 128), (64, 64), (128, 32), (32, 128, "utf8"), (32, 128, "utf8"),
+                             ("legacy-keywords", 16, " "), ("legacy-keywords", 64, "\t")))
         wrap = rng.choice(("none", "none", "comment", "paren", "midline"))
         ctx.count("evaluations")
         ctx.count("mon.text_roundtrip")
